@@ -1,9 +1,228 @@
-/- WS.Driver.OpsApp — op group App (see AGENTS_GUIDE.md). Return `none` for ops not handled here. -/
+/- WS.Driver.OpsApp — op group App (C13–C16): the WebSocketApp model and the trace specs.
+
+   m-app <cfg> <plan> <runs> <sched>           → trace of Model.App.runMany
+     cfg   = mask,iv,to,payload,reconnect,ssl,horizon,fuel   (mask: bit i = callback i set; to: N | int;
+             payload hex or -; times in ticks of 1/1024 s)
+     plan  = 8 strings over {o,r,c,k} separated by `/` (`-` = empty), one per callback in Cb.all order
+     runs  = runs separated by `!`; a run = dial outcomes separated by `/` (`-` = none):
+             R | J<status> | E<ev>+<ev>+…   with  ev = <dt>.<burst>.<kind><hex>
+             kinds: t/T text (whole/fragmented), b/B binary, p ping, q pong, c close, e eof, r reset,
+                    x protoError, y payloadError, h partial
+     sched = string of 0/1 (`-` = empty): order at simultaneous wakes, 1 = ping thread first
+   trace = events joined by `;`, each `<tick>:<event>`.
+-/
 import WS.Driver.Util
+import WS.Model.App
+import WS.Spec.AppTrace
+import WS.Model.Keepalive
+import WS.Spec.KeepaliveSpec
 namespace WS.Driver.App
-open WS WS.Driver
+open WS WS.Driver WS.Model.App
+
+/-! ### rendering -/
+
+def exnOut : AExn → String
+  | .closed => "CLOSED" | .proto => "PROTO" | .payload => "PAYLOAD" | .timeout => "TIMEOUT"
+  | .transport => "TRANSPORT" | .badstatus n => s!"BADSTATUS({n})" | .wsgeneric => "WSGENERIC"
+  | .attrError => "INTERNAL(AttributeError)" | .user cb k => s!"USER({cb.name}#{k})" | .ki => "KI"
+  | .frame b => s!"FRAME({bytesOut b})"
+  | .other k => k
+
+def argOut : Arg → String
+  | .none => "N" | .int n => s!"i{n}" | .str b => "s" ++ bytesOut b | .bytes b => "b" ++ bytesOut b
+  | .bool b => if b then "T" else "F" | .exn e => "e" ++ exnOut e
+
+def evOut : Ev → String
+  | .cb c args => s!"cb:{c.name}:" ++ (if args.isEmpty then "-" else ",".intercalate (args.map argOut))
+  | .dial i => s!"dial:{i}" | .sleep d => s!"sleep:{d}" | .wrote op p => s!"wrote:{op}:{bytesOut p}"
+  | .sockClosed i => s!"sockClosed:{i}" | .sockDropped i => s!"sockDropped:{i}"
+  | .pingStart => "pingStart" | .pingStop => "pingStop"
+  | .returned b => s!"ret:{b2s b}" | .raisedOut e => s!"raised:{exnOut e}"
+  | .blocked => "blocked" | .outOfFuel => "outOfFuel" | .closeCall => "closeCall"
+
+def traceOut (t : Trace) : String :=
+  if t.isEmpty then "-" else ";".intercalate (t.map fun (tm, e) => s!"{tm}:{evOut e}")
+
+/-! ### parsing -/
+
+def parseAct : Char → Option Act
+  | 'o' => some .ok | 'r' => some .raise | 'c' => some .close | 'k' => some .ki | _ => none
+
+def parseActs (s : String) : Option (List Act) :=
+  if s == "-" then some [] else s.toList.mapM parseAct
+
+def parsePlan (s : String) : Option (Cb → List Act) :=
+  match (s.splitOn "/").mapM parseActs with
+  | some l => if l.length == 8 then some (fun cb => l.getD cb.idx []) else none
+  | none => none
+
+def parseSrvEv (k : Char) (h : String) : Option SrvEv :=
+  let body : Option Bytes := if h.isEmpty then some [] else ofHex h
+  match k, body with
+  | 't', some b => some (.message Gen.opcodeText b false)
+  | 'T', some b => some (.message Gen.opcodeText b true)
+  | 'b', some b => some (.message Gen.opcodeBinary b false)
+  | 'B', some b => some (.message Gen.opcodeBinary b true)
+  | 'p', some b => some (.ping b) | 'q', some b => some (.pong b) | 'c', some b => some (.close b)
+  | 'e', some [] => some .eof | 'r', some [] => some .reset | 'x', some [] => some .protoError
+  | 'y', some [] => some .payloadError | 'h', some [] => some .part
+  | _, _ => none
+
+def parseTEv (s : String) : Option TEv :=
+  match s.splitOn "." with
+  | [dt, b, kh] =>
+    match dt.toNat?, kh.toList with
+    | some dt, k :: h =>
+      (parseSrvEv k (String.ofList h)).map fun ev => { dt := dt, burst := b == "1", ev := ev }
+    | _, _ => none
+  | _ => none
+
+def parseDial (s : String) : Option Dial :=
+  match s.toList with
+  | ['R'] => some .refused
+  | 'J' :: r => (String.ofList r).toNat?.map .rejected
+  | ['E'] => some (.established [])
+  | 'E' :: r => ((String.ofList r).splitOn "+").mapM parseTEv |>.map .established
+  | _ => none
+
+def parseRun (s : String) : Option (List Dial) :=
+  if s == "-" then some [] else (s.splitOn "/").mapM parseDial
+
+def parseRuns (s : String) : Option (List (List Dial)) := (s.splitOn "!").mapM parseRun
+
+def parseSched (s : String) : Option (List Bool) :=
+  if s == "-" then some [] else
+  s.toList.mapM fun ch => if ch == '1' then some true else if ch == '0' then some false else none
+
+def parseOptInt (s : String) : Option (Option Int) :=
+  if s == "N" then some none else s.toInt?.map some
+
+def parseCfg (s : String) (plan : Cb → List Act) : Option Cfg :=
+  match s.splitOn "," with
+  | [mask, iv, to, pl, rc, ssl, hz, fuel] =>
+    match mask.toNat?, iv.toInt?, parseOptInt to, parseBytes pl, rc.toNat?, hz.toNat?, fuel.toNat? with
+    | some mask, some iv, some to, some pl, some rc, some hz, some fuel =>
+      some { has := fun cb => (mask >>> cb.idx) % 2 == 1, plan := plan, iv := iv, to := to, payload := pl,
+             reconnect := rc, ssl := ssl == "1", horizon := hz, fuel := fuel }
+    | _, _, _, _, _, _, _ => none
+  | _ => none
+
+/-! ### parsing a trace back (for the spec ops applied to the real implementation's trace) -/
+
+def cbOfName (n : String) : Option Cb := Cb.all.find? fun c => c.name == n
+
+def inParens (s : String) (pre : String) : Option String :=
+  if s.startsWith pre && s.endsWith ")" then
+    some (String.ofList ((s.toList.drop pre.length).dropLast))
+  else none
+
+def parseExn (s : String) : AExn :=
+  if s == "CLOSED" then .closed else if s == "PROTO" then .proto else if s == "PAYLOAD" then .payload
+  else if s == "TIMEOUT" then .timeout else if s == "TRANSPORT" then .transport
+  else if s == "WSGENERIC" then .wsgeneric else if s == "KI" then .ki
+  else if s == "INTERNAL(AttributeError)" then .attrError
+  else match inParens s "BADSTATUS(" with
+    | some n => match n.toNat? with | some n => .badstatus n | none => .other s
+    | none => match inParens s "FRAME(" with
+      | some h => match parseBytes h with | some b => .frame b | none => .other s
+      | none => match inParens s "USER(" with
+        | some u => match u.splitOn "#" with
+          | [n, k] => match cbOfName n, k.toNat? with
+            | some c, some k => .user c k
+            | _, _ => .other s
+          | _ => .other s
+        | none => .other s
+
+def parseArg (s : String) : Option Arg :=
+  match s.toList with
+  | ['N'] => some .none | ['T'] => some (.bool true) | ['F'] => some (.bool false)
+  | 'i' :: r => (String.ofList r).toNat?.map .int
+  | 's' :: r => (parseBytes (String.ofList r)).map .str
+  | 'b' :: r => (parseBytes (String.ofList r)).map .bytes
+  | 'e' :: r => some (.exn (parseExn (String.ofList r)))
+  | _ => none
+
+def parseEv (parts : List String) : Option Ev :=
+  match parts with
+  | ["cb", n, a] =>
+    match cbOfName n, (if a == "-" then some [] else (a.splitOn ",").mapM parseArg) with
+    | some c, some args => some (.cb c args)
+    | _, _ => none
+  | ["dial", i] => i.toNat?.map .dial
+  | ["sleep", d] => d.toNat?.map .sleep
+  | ["wrote", op, h] => match op.toNat?, parseBytes h with
+    | some op, some b => some (.wrote op b)
+    | _, _ => none
+  | ["sockClosed", i] => i.toNat?.map .sockClosed
+  | ["sockDropped", i] => i.toNat?.map .sockDropped
+  | ["pingStart"] => some .pingStart | ["pingStop"] => some .pingStop
+  | ["ret", b] => some (.returned (b == "1"))
+  | ["raised", e] => some (.raisedOut (parseExn e))
+  | ["blocked"] => some .blocked | ["outOfFuel"] => some .outOfFuel | ["closeCall"] => some .closeCall
+  | _ => none
+
+def parseTrace (s : String) : Option Trace :=
+  if s == "-" || s.isEmpty then some [] else
+  (s.splitOn ";").mapM fun item =>
+    match item.splitOn ":" with
+    | t :: rest => match t.toNat?, parseEv rest with
+      | some t, some e => some (t, e)
+      | _, _ => none
+    | [] => none
 
 def ops : List String → Option String
+  | ["s-app", cfg, plan, runs, exact, trace] =>
+    match parsePlan plan with
+    | none => some "bad-plan"
+    | some pl =>
+      match parseCfg cfg pl, parseRuns runs, parseTrace trace with
+      | some c, some rs, some tr =>
+        let v := Spec.AppTrace.checkAll c (exact == "1") rs tr
+        some (if v.isEmpty then "ok" else " ".intercalate v.eraseDups)
+      | none, _, _ => some "bad-cfg"
+      | _, none, _ => some "bad-runs"
+      | _, _, none => some "bad-trace"
+  | ["m-app", cfg, plan, runs, sched] =>
+    match parsePlan plan with
+    | none => some "bad-plan"
+    | some pl =>
+      match parseCfg cfg pl, parseRuns runs, parseSched sched with
+      | some c, some rs, some sc =>
+        let s := runMany c rs { sched := sc }
+        some (traceOut s.trace)
+      | none, _, _ => some "bad-cfg"
+      | _, none, _ => some "bad-runs"
+      | _, _, none => some "bad-sched"
+  | ["m-keepalive", iv, to, hz, fuel, arr, sched] =>
+    -- arr = `-` or items `<dt>.<q|d>` joined by `+` (gaps in ticks; q = pong, d = data)
+    let items : Option (List (Nat × Model.Keepalive.Kind)) :=
+      if arr == "-" then some [] else
+      (arr.splitOn "+").mapM fun it => match it.splitOn "." with
+        | [d, k] => match d.toNat? with
+          | some d => if k == "q" then some (d, .pong) else if k == "d" then some (d, .data) else none
+          | none => none
+        | _ => none
+    match iv.toNat?, to.toNat?, hz.toNat?, fuel.toNat?, items, parseSched sched with
+    | some iv, some to, some hz, some fuel, some items, some sc =>
+      let (pings, rep) := Model.Keepalive.run iv to hz fuel (Model.Keepalive.absolute 0 items) sc
+      some (s!"pings={",".intercalate (pings.map toString)};report=" ++ (match rep with | some r => toString r | none => "N"))
+    | _, _, _, _, _, _ => some "bad-keepalive"
+  | ["s-keepalive", iv, to, hz, pings, pongs, rep] =>
+    let nums (x : String) : Option (List Nat) := if x == "-" then some [] else (x.splitOn ",").mapM (·.toNat?)
+    match iv.toNat?, to.toNat?, hz.toNat?, nums pings, nums pongs with
+    | some iv, some to, some hz, some pi, some po =>
+      let r : Option Nat := if rep == "N" then none else rep.toNat?
+      let v := Spec.Keepalive.check iv to pi po r hz
+      some (if v.isEmpty then "ok" else " ".intercalate v)
+    | _, _, _, _, _ => some "bad-keepalive"
+  | ["s-keepalive-args", iv, to] =>
+    match iv.toInt?, parseOptInt to with
+    | some iv, some to => some (b2s (Spec.Keepalive.argsOk iv to))
+    | _, _ => some "bad-args"
+  | ["m-app-args", iv, to] =>
+    match iv.toInt?, parseOptInt to with
+    | some iv, some to => some (b2s (argsAccepted iv to))
+    | _, _ => some "bad-args"
   | _ => none
 
 end WS.Driver.App
